@@ -17,8 +17,8 @@ TNext == /\ l < Len(Ev)
          /\ l' = l + 1 /\ tid' = tid
          /\ LET e == Ev[l + 1] IN
               \/ e.a = "req" /\ e.q \in Requests /\ Req(e.q)
-              \/ e.a = "read" /\ ObsTable(e) = Table(hits) /\ Read
-              \/ e.a = "reset" /\ ObsTable(e) = Table(hits) /\ Reset
+              \/ e.a = "read" /\ \E incl \in BOOLEAN : ReadT(incl, ObsTable(e))
+              \/ e.a = "reset" /\ \E incl \in BOOLEAN : ResetT(incl, ObsTable(e))
 
 TSpec == TInit /\ [][TNext]_tvars
 Accept == (l = Len(Ev)) => PrintT(<<"ACCEPT", Traces[tid].tid>>)
